@@ -1,5 +1,12 @@
-(* C13 — colour quantisation: bounded palette, valid indices, exact nearest-colour search.
-   Statements only; proofs in Image/{KDTreeProofs,OctreeProofs,QuantizeProofs}.v. *)
+(* C13 - colour quantisation: bounded palette, valid indices, exact nearest-colour search.
+   Statements only; proofs in Image/{KDTreeProofs,OctreePath,OctreeProofs,OctreeExact,QuantizeProofs,
+   QuantizeExact,QuantizeDither}.v.
+   Counted theorems (5): C13_nearest, C13_palette_upto_2p56px, C13_quantize_upto_2p56px,
+   C13_palette_exact_upto_2p56px, C13_exact_upto_2p56px.  Lemmas (audited, not counted):
+   C13_nearest_predicate, C13_octree_path, C13_machine_words, C13_index_any_query,
+   C13_dither_slots.  Examples: C13_*_nonvacuous.
+   Restrictions: images / colour lists of at most 2^56 entries (the `_upto_2p56px` theorems; the
+   accumulator widths come from Gen/TabOctree.v, regenerated on every run), requested size >= 1. *)
 From Coq Require Import List NArith ZArith Bool Lia ZifyNat ZifyN.
 From SNT Require Import Base.Outcome Image.KDTree Image.Octree Image.Quantize
      Image.KDTreeProofs Image.OctreePath Image.OctreeProofs Image.OctreeExact Image.QuantizeProofs Image.QuantizeExact
